@@ -47,6 +47,8 @@ def make(par):
         return me.IPv6(is_extensible=ext)
     if k == 'IPctx':
         return me.IPv6() if par['v6'] else me.IPv4()
+    if k == 'DecCtx':
+        return make(par['base'])
     if k == 'Date':
         fm = [fmt_str(f) for f in par['fmts']]
         return me.Date(fm if len(fm) > 1 else fm[0], is_extensible=ext)
@@ -58,6 +60,8 @@ def fmt_str(f):
 
 
 def key_of(par):
+    if par['kind'] == 'DecCtx':
+        return key_of(par['base'])
     return repr(sorted((k, v if not isinstance(v, list) else tuple(map(repr, v))) for k, v in par.items() if k not in ('alpha', 'cand')))
 
 
@@ -75,6 +79,8 @@ def describe(par):
         return '%s(%r, is_global=%s%s)' % (k, sorted(S(a) for a in par['affixes']), par['glob'], ', is_extensible=True' if par['ext'] else '')
     if k == 'IPctx':
         return 'IPv6()' if par['v6'] else 'IPv4()'
+    if k == 'DecCtx':
+        return describe(par['base'])
     if k == 'Date':
         return 'Date(%r%s)' % ([fmt_str(f) for f in par['fmts']], ', is_extensible=True' if par['ext'] else '')
     return '%s(%s)' % (k, 'is_extensible=True' if par['ext'] else '')
